@@ -74,6 +74,62 @@ def run(chk: Check) -> None:
         else:
             r1.violation(key, iie.loc(rt.stmt), "an accepting return of is_ignored_error is reachable without first answering False for info.blocker")
 
+    # ---------------- R13.5
+    r5 = chk.rule("R13.5", "is_error_code_enabled decides in the order: code explicitly disabled -> off; code explicitly enabled -> on; parent code disabled -> off; else default (an explicit enable of a sub-code overrides disabling its parent)", floor=3)
+    ice = ix.func("mypy.errors.Errors.is_error_code_enabled")
+    ge = CFG(ice.node)
+    alias = {}
+    for n in ast.walk(ice.node):
+        if isinstance(n, ast.Assign) and isinstance(n.targets[0], ast.Name):
+            alias[n.targets[0].id] = norm(n.value)
+
+    def src_of(e):
+        t = norm(e)
+        return alias.get(t, t)
+
+    def classify_test(t: ast.expr):
+        if isinstance(t, ast.BoolOp) and isinstance(t.op, ast.And):
+            parts = [classify_test(v) for v in t.values]
+            if "parent-disabled" in parts or any(p == "disabled" for p in parts) and any("sub_code_of" in " ".join(src_of(x) for x in ast.walk(v) if isinstance(x, (ast.Name, ast.Attribute))) for v in t.values):
+                return "parent-disabled"
+            return next((p for p in parts if p), None)
+        if isinstance(t, ast.Compare) and len(t.ops) == 1 and isinstance(t.ops[0], ast.In):
+            where = src_of(t.comparators[0])
+            what = src_of(t.left)
+            kind = "disabled" if "disabled_error_codes" in where else ("enabled" if "enabled_error_codes" in where else None)
+            if kind == "disabled" and "sub_code_of" in what:
+                return "parent-disabled"
+            return kind
+        return None
+
+    tests = {}
+    for n in ge.nodes:
+        if n.kind == "test":
+            k = classify_test(n.exprs[0])
+            if k:
+                tests.setdefault(k, n)
+    if set(tests) >= {"disabled", "enabled", "parent-disabled"}:
+        for first, second in (("disabled", "enabled"), ("enabled", "parent-disabled")):
+            a, b = tests[first], tests[second]
+            fsucc = [m for m, lab in a.succ if lab == "false"]
+            ok = ge.must_pass(ge.entry, [b], [a], labels_excluded=("exc",)) and b in ge.reachable(fsucc, labels_excluded=("exc",)) and b not in ge.reachable([m for m, lab in a.succ if lab == "true"], labels_excluded=("exc",))
+            key = f"is_error_code_enabled: `{first}` test decides before `{second}` test"
+            if ok:
+                r5.ok(key, ice.loc(a.stmt))
+            else:
+                r5.violation(key, ice.loc(b.stmt), f"the `{second}` test can be reached without the `{first}` test having answered first: " + ("an explicitly enabled sub-code is switched off by disabling its parent code" if second == "parent-disabled" else "an explicitly disabled code can be reported"))
+        # polarity of the answers
+        for k, want in (("disabled", False), ("enabled", True), ("parent-disabled", False)):
+            t = tests[k]
+            tsucc = [m for m, lab in t.succ if lab == "true"]
+            first = tsucc[0] if tsucc else None
+            if first is not None and isinstance(first.stmt, ast.Return) and isinstance(first.stmt.value, ast.Constant) and first.stmt.value.value is want:
+                r5.ok(f"is_error_code_enabled: `{k}` answers {want}", ice.loc(t.stmt))
+            else:
+                r5.violation(f"is_error_code_enabled: `{k}` answers {want}", ice.loc(t.stmt), "wrong polarity")
+    else:
+        raise AnalysisError(f"is_error_code_enabled: decision tests not recognised ({sorted(tests)})")
+
     # ---------------- R13.2
     r2 = chk.rule("R13.2", "suppressed by an ignore comment (code enabled) => recorded in used_ignored_lines before returning; no other site appends to used_ignored_lines", floor=2)
     ign_tests = [n for n in g.nodes if n.kind == "test" and any(call_name(c) == "is_ignored_error" for c in n.calls())]
